@@ -14,8 +14,9 @@ META = dict(
     explanation='Path-wise symbolic execution (engine/symir.py, z3) of the real coroutine Scheduler and the Channel / Mutex / Semaphore / Condition / Broadcast templates on a fake event loop; getcontext/makecontext/swapcontext are modelled natively (a context is a saved call stack, uc_link honoured). '
                 'Routine scripts are step lists whose steps are symbolic over {yield, send, receive, lock, unlock, acquire, release, broadcast wait/post}; the harness runs loop passes until the scheduler is idle and then inspects every routine: '
                 'none may be suspended on a non-empty channel, a free mutex or a positive semaphore; values are FIFO exactly once; at most one mutex holder (also across a yield in the critical section); grants <= releases + initial count; '
-                'then cancel-all or cleanup (symbolic) must make every started routine return with failure and terminate. A second harness covers broadcast with 0-3 waiters, Condition kAll/kAny with early and late posts, and join.',
-    bounds='3 routines x 2 steps and 2 routines x 3 steps per primitive family (3 x 3 in the thorough tier), symbolic initial semaphore count 0/1, cancel vs cleanup symbolic',
+                'then cancel-all or cleanup (symbolic) must make every started routine return with failure and terminate. A second harness covers broadcast with 0-3 waiters, Condition kAll/kAny with early and late posts, and join.'
+                ' Extended: join vs cancel - the target is created ready or suspended and cancelled after 0-2 loop passes (before its first run or after it started) or not at all; the joiner always returns from join().',
+    bounds='3 routines x 2 steps and 2 routines x 3 steps per primitive family (3 x 3 in the thorough tier), symbolic initial semaphore count 0/1, cancel vs cleanup symbolic; join/cancel: 1 target, 1 joiner',
     outside='more than 3 routines / 3 steps; routines creating routines; mixing primitives of different families in one script; real ucontext stack switching (replayed natively for counterexamples only)',
     assumptions=['scheduling is deterministic (round robin over the ready queue) as implemented by Scheduler::schedule', 'fake loop runs queued runNext callbacks pass by pass'],
     trusted_base=['clang++-14 -O1 IR', 'engine/symir.py incl. its ucontext model and std::queue/deque/set execution', 'z3', 'harness/vp_fakes.hpp'])
